@@ -1,26 +1,26 @@
 """Registry: which models, suites and trace specifications decide which property."""
 
 POOL_SUITE = {"suite": "pool", "trace": "Trace_Pool", "cfg": "Trace_Pool.cfg",
-              "quick": {"runs": 240, "ops": 30}, "thorough": {"runs": 6000, "ops": 40}, "procs": 8}
+              "quick": {"runs": 240, "ops": 30}, "thorough": {"runs": 20000, "ops": 40}, "procs": 10}
 MC_POOL = {"module": "MC_Pool", "quick": "MC_Pool_quick.cfg", "thorough": "MC_Pool.cfg", "workers": 6,
            "timeout": {"quick": 600, "thorough": 3000}}
 
 MATH_CP = {"suite": "math", "trace": "Trace_Math", "cfg": "Trace_Math.cfg", "extra": {"kind": "cp"},
-           "quick": {"runs": 40, "ops": 1000}, "thorough": {"runs": 800, "ops": 1000}, "procs": 8}
+           "quick": {"runs": 40, "ops": 1000}, "thorough": {"runs": 2000, "ops": 1000}, "procs": 8}
 MATH_SPREAD = {"suite": "math", "trace": "Trace_Math", "cfg": "Trace_Math.cfg", "extra": {"kind": "spread"},
-               "quick": {"runs": 30, "ops": 1000}, "thorough": {"runs": 400, "ops": 1000}, "procs": 6}
+               "quick": {"runs": 30, "ops": 1000}, "thorough": {"runs": 1000, "ops": 1000}, "procs": 6}
 MC_CPMATH = {"module": "MC_CpMath", "quick": "MC_CpMath_quick.cfg", "thorough": "MC_CpMath.cfg", "workers": 10,
              "timeout": {"quick": 600, "thorough": 3000}}
 MC_CPMATH10 = {"module": "MC_CpMath", "quick": "MC_CpMath_dec10.cfg", "thorough": "MC_CpMath_dec10.cfg", "workers": 4,
                "timeout": {"quick": 600, "thorough": 3000}}
 
 VAULT_SUITE = {"suite": "vault", "trace": "Trace_Vault", "cfg": "Trace_Vault.cfg",
-               "quick": {"runs": 240, "ops": 30}, "thorough": {"runs": 6000, "ops": 40}, "procs": 8}
+               "quick": {"runs": 240, "ops": 30}, "thorough": {"runs": 20000, "ops": 40}, "procs": 10}
 MC_VAULT = {"module": "MC_Vault", "quick": "MC_Vault_quick.cfg", "thorough": "MC_Vault.cfg", "workers": 6,
             "timeout": {"quick": 600, "thorough": 3000}}
 
 LAIR_RANDOM = {"suite": "lair", "trace": "Trace_Lair", "cfg": "Trace_Lair.cfg",
-               "quick": {"runs": 120, "ops": 40}, "thorough": {"runs": 3000, "ops": 60}, "procs": 6}
+               "quick": {"runs": 120, "ops": 40}, "thorough": {"runs": 10000, "ops": 60}, "procs": 6}
 LAIR_SCHED = {"suite": "lair", "trace": "Trace_Lair", "cfg": "Trace_Lair.cfg", "sched_from": "MC_Lair_sched",
               "extra": {"mode": "sched"}, "quick": {"runs": 1500}, "thorough": {"runs": 0}, "procs": 8}
 MC_LAIR = {"module": "MC_Lair", "quick": "MC_Lair_quick.cfg", "thorough": "MC_Lair.cfg", "workers": 6,
@@ -34,7 +34,7 @@ def _ep(kind, sched):
         d.update({"sched_from": f"MC_Epochs_{kind}_sched", "extra": {"kind": kind, "mode": "sched"},
                   "quick": {"runs": 1200}, "thorough": {"runs": 0}})
     else:
-        d.update({"quick": {"runs": 60, "ops": 40}, "thorough": {"runs": 1500, "ops": 80}})
+        d.update({"quick": {"runs": 60, "ops": 40}, "thorough": {"runs": 5000, "ops": 80}})
     return d
 
 
@@ -55,9 +55,9 @@ def _reg(kind, quick_runs):
 _REG = [_reg("pair", 400), _reg("trio", 250), _reg("vault", 400), _reg("incentive", 0)]
 
 DIST_RANDOM = {"suite": "dist", "trace": "Trace_Distributor", "cfg": "Trace_Distributor.cfg",
-               "quick": {"runs": 80, "ops": 60}, "thorough": {"runs": 2000, "ops": 120}, "procs": 6}
+               "quick": {"runs": 80, "ops": 60}, "thorough": {"runs": 6000, "ops": 120}, "procs": 6}
 DIST_MULTI = {"suite": "dist", "trace": "Trace_Distributor", "cfg": "Trace_Distributor.cfg", "extra": {"kind": "multi"},
-              "quick": {"runs": 40, "ops": 60}, "thorough": {"runs": 1000, "ops": 120}, "procs": 6}
+              "quick": {"runs": 40, "ops": 60}, "thorough": {"runs": 8000, "ops": 120}, "procs": 6}
 DIST_SCHED = {"suite": "dist", "trace": "Trace_Distributor", "cfg": "Trace_Distributor.cfg", "sched_from": "MC_Distributor_sched",
               "extra": {"mode": "sched"}, "quick": {"runs": 700}, "thorough": {"runs": 0}, "procs": 8}
 MC_DIST = {"module": "MC_Distributor", "quick": "MC_Distributor_quick.cfg", "thorough": "MC_Distributor.cfg", "workers": 6,
@@ -66,33 +66,33 @@ MC_DIST_SCHED = {"module": "MC_Distributor", "quick": "MC_Distributor_sched.cfg"
                  "emits": "MC_Distributor_sched"}
 
 INC_RANDOM = {"suite": "incentive", "trace": "Trace_Incentive", "cfg": "Trace_Incentive.cfg",
-              "quick": {"runs": 120, "ops": 70}, "thorough": {"runs": 3000, "ops": 120}, "procs": 6}
+              "quick": {"runs": 120, "ops": 70}, "thorough": {"runs": 8000, "ops": 120}, "procs": 6}
 INC_SCHED = {"suite": "incentive", "trace": "Trace_Incentive", "cfg": "Trace_Incentive.cfg", "sched_from": "MC_Incentive_sched",
              "extra": {"mode": "sched"}, "quick": {"runs": 600}, "thorough": {"runs": 12000}, "procs": 8}
 MC_INC = [{"module": "MC_Incentive", "quick": "MC_Incentive_quick.cfg", "thorough": "MC_Incentive.cfg", "workers": 6, "timeout": {"quick": 600, "thorough": 3000}},
           {"module": "MC_Incentive", "quick": "MC_Incentive_flows.cfg", "thorough": "MC_Incentive_flows.cfg", "workers": 4},
           {"module": "MC_Incentive", "quick": "MC_Incentive_sched.cfg", "thorough": "MC_Incentive_sched.cfg", "workers": 4, "emits": "MC_Incentive_sched"}]
 MATH_WEIGHT = {"suite": "math", "trace": "Trace_Math", "cfg": "Trace_Math.cfg", "extra": {"kind": "weight"},
-               "quick": {"runs": 10, "ops": 2000}, "thorough": {"runs": 200, "ops": 2000}, "procs": 4}
+               "quick": {"runs": 10, "ops": 2000}, "thorough": {"runs": 500, "ops": 2000}, "procs": 4}
 
 MATH_ST2 = {"suite": "math", "trace": "Trace_Math", "cfg": "Trace_Math.cfg", "extra": {"kind": "st2"},
-            "quick": {"runs": 16, "ops": 240}, "thorough": {"runs": 160, "ops": 600}, "procs": 8}
+            "quick": {"runs": 16, "ops": 240}, "thorough": {"runs": 320, "ops": 600}, "procs": 8}
 MATH_ST3 = {"suite": "math", "trace": "Trace_Math", "cfg": "Trace_Math.cfg", "extra": {"kind": "st3"},
-            "quick": {"runs": 16, "ops": 300}, "thorough": {"runs": 160, "ops": 600}, "procs": 8}
+            "quick": {"runs": 16, "ops": 300}, "thorough": {"runs": 320, "ops": 600}, "procs": 8}
 TRIO_SUITE = {"suite": "trio", "trace": "Trace_Trio", "cfg": "Trace_Trio.cfg",
-              "quick": {"runs": 32, "ops": 120}, "thorough": {"runs": 800, "ops": 200}, "procs": 8}
+              "quick": {"runs": 32, "ops": 120}, "thorough": {"runs": 2400, "ops": 200}, "procs": 8}
 MC_STABLE = {"module": "MC_Stable", "quick": "MC_Stable_quick.cfg", "thorough": "MC_Stable.cfg", "workers": 4,
              "timeout": {"quick": 600, "thorough": 3000}}
 MC_TRIO = [{"module": "MC_Trio", "quick": "MC_Trio_quick.cfg", "thorough": "MC_Trio_ramps.cfg", "workers": 6, "timeout": {"quick": 600, "thorough": 3000}},
            {"module": "MC_Trio", "quick": "MC_Trio_pool.cfg", "thorough": "MC_Trio_pool.cfg", "workers": 6, "timeout": {"quick": 600, "thorough": 3000}}]
 
 POOL_STABLE = {"suite": "pool", "trace": "Trace_Pool", "cfg": "Trace_Pool.cfg", "extra": {"kind": "stable"},
-               "quick": {"runs": 64, "ops": 30}, "thorough": {"runs": 2000, "ops": 40}, "procs": 8}
+               "quick": {"runs": 64, "ops": 30}, "thorough": {"runs": 5000, "ops": 40}, "procs": 8}
 HELPER_SUITE = {"suite": "helper", "trace": "Trace_Helper", "cfg": "Trace_Helper.cfg",
-                "quick": {"runs": 24, "ops": 50}, "thorough": {"runs": 600, "ops": 100}, "procs": 4}
+                "quick": {"runs": 24, "ops": 50}, "thorough": {"runs": 2000, "ops": 100}, "procs": 4}
 MC_HELPER = {"module": "MC_Helper", "quick": "MC_Helper.cfg", "thorough": "MC_Helper.cfg", "workers": 2}
 ROUTE_SUITE = {"suite": "route", "trace": "Trace_Router", "cfg": "Trace_Router.cfg",
-               "quick": {"runs": 24, "ops": 60}, "thorough": {"runs": 600, "ops": 120}, "procs": 6}
+               "quick": {"runs": 24, "ops": 60}, "thorough": {"runs": 2000, "ops": 120}, "procs": 6}
 MC_ROUTER = {"module": "MC_Router", "quick": "MC_Router.cfg", "thorough": "MC_Router.cfg", "workers": 4}
 
 PROPS = {
